@@ -64,9 +64,12 @@ func main() {
 	sources := []string{"crl_files", "crl_urls", "cdp_active", "cdp_background"}
 	encs := []string{"der", "pem-lf", "pem-crlf"}
 	sizes := []int{1, 2, 3, 5, 17, 100, 1000, 5000}
+	if run.Thorough() {
+		sizes = append(sizes, 5000, 20000)
+	}
 	ocsps := []string{"none", "good", "unavailable"}
 	var cases []caseSpec
-	ncases := 320
+	ncases := 400
 	if run.Thorough() {
 		ncases = 2400
 	}
@@ -134,13 +137,27 @@ func main() {
 	w.OCSP.Set("/good", world.Responder(w.Int, nil, nil, func(*big.Int) world.OCSPStatus { return world.OCSPStatus{Status: ocsp.Good} }))
 	w.OCSP.Set("/unavail", origin.Status(500, []byte("<html>oops</html>")))
 
+	// worker processes: update passes of all validators of one process are serialised by a
+	// process-wide mutex, so cases are spread over processes, two cases at a time per process
+	si, sn, isShard := report.Shard()
+	if !isShard {
+		run.RunShards(14, scratch)
+		run.Finish(50)
+		return
+	}
 	jobs := make(chan caseSpec, len(cases))
 	for _, c := range cases {
+		if f := os.Getenv("VERIF_ONLY_SOURCE"); f != "" && c.Source != f {
+			continue
+		}
+		if c.ID%sn != si {
+			continue
+		}
 		jobs <- c
 	}
 	close(jobs)
 	var wg sync.WaitGroup
-	workers := 8
+	workers := 2
 	for i := 0; i < workers; i++ {
 		wg.Add(1)
 		go func() {
@@ -151,12 +168,18 @@ func main() {
 		}()
 	}
 	wg.Wait()
-	run.Set("crl_origin_hits", w.CRL.HitCount(""))
-	run.Set("ocsp_origin_hits", w.OCSP.HitCount(""))
-	run.Finish(50)
+	run.Count("crl_origin_hits", int64(w.CRL.HitCount("")))
+	run.Count("ocsp_origin_hits", int64(w.OCSP.HitCount("")))
+	run.FinishShard()
 }
 
 func runCase(run *report.Run, w *world.World, c caseSpec, scratch, intPEM, otherPEM, otherFile string) {
+	t0 := time.Now()
+	defer func() {
+		if d := time.Since(t0); d > 3*time.Second && os.Getenv("VERIF_DEBUG") != "" {
+			fmt.Printf("slow case %.1fs %s\n", d.Seconds(), c.desc())
+		}
+	}()
 	rng := rand.New(rand.NewSource(c.Seed))
 	entries := gen.Entries(rng, gen.Opts{N: c.N, SerialWidth: c.Width, Exts: c.ExtMode, GenTimeMix: true})
 	spec := gen.SpecFor(w.Int, entries)
